@@ -286,6 +286,15 @@ def generate(sc, tier, seed):
                     htier = "thorough"
             if not thorough and htier != "quick":
                 continue
+            if thorough and shape == "mem" and cls["klass"] == "data":
+                ws = pattern_widths.get((form["file"], base_pattern), {cls["w"]})
+                if cls["w"] not in (8, 64, max(ws)):
+                    meta.setdefault("mem_widths_not_generated", []).append("%s:%s" % (form["code"], shape))
+                    continue  # thorough memory shape: 8-bit, 64-bit and widest width of every pattern
+                if cls["op"] in ("Div", "Idiv") and cls["w"] >= 16:
+                    meta.setdefault("skipped_heavy", []).append("%s:%s value" % (form["code"], shape))
+                    if cls["w"] < 32:
+                        continue
             # one group per (mnemonic file, shape); multiplier/divider circuits one width per harness
             gpat = pattern if cls["op"] in ("Div", "Idiv", "Mul", "Imul1", "Imul2", "Imul3") else "all"
             gkey = (form["file"][:-3], gpat, shape, htier)
@@ -316,7 +325,7 @@ def generate(sc, tier, seed):
             hid += "_rest"
         gmax = GROUP_MAX
         if any(b[2] for b, _d in lst):
-            gmax = 2  # blocks with a memory operand: four merged blocks exhaust 12 GB
+            gmax = 1  # blocks with a memory operand: merged blocks exhaust 12 GB (and 15 of them the machine)
         if "_w64" in gkey[1] or gkey[0] in ("pop", "push", "call", "ret"):
             gmax = 1  # stack forms: two merged blocks exhaust 12 GB
         for i in range(0, len(lst), gmax):
